@@ -246,6 +246,123 @@ theorem traceOk_of_sized (T : List Gen) (B : List Nat)
       rw [allWrites_append, applyWrites_append] at this
       simpa [allWrites] using this
 
+/-! ### execution that starts at a later generation (`starting_step > 0`) -/
+
+theorem consec_add (a : Int) (m k : Nat) : consec a (m + k) = consec a m ++ consec (a + m) k := by
+  induction k with
+  | zero => simp [consec]
+  | succ k ih =>
+    rw [← Nat.add_assoc, consec_succ_eq, ih, consec_succ_eq, List.append_assoc]
+    congr 2
+    simp [Int.add_assoc]
+
+/-- the middle part of a consecutive list is consecutive, starting where the first part ends -/
+theorem consec_middle (n : Nat) (l₁ l₂ l₃ : List Int) (h : l₁ ++ l₂ ++ l₃ = consec 0 n) :
+    l₂ = consec l₁.length l₂.length := by
+  have h12 := consec_prefix 0 n (l₁ ++ l₂) l₃ h
+  have h1 := consec_prefix 0 n l₁ (l₂ ++ l₃) (by rw [← List.append_assoc]; exact h)
+  rw [List.length_append, consec_add] at h12
+  rw [h1] at h12
+  simp only [consec_length] at h12
+  have := List.append_cancel_left h12
+  simpa using this
+
+/-- **End-to-end, any starting generation.** The hypotheses are about the whole trace `T = pre0 ++ rest0`; the buffers
+are fresh when `rest0` starts. Every read of `rest0` returns the scheduled message if it was written since the start, and
+otherwise the default output the buffer was initialised with — never another message. (`strict` may only be asked for
+when the execution starts at the beginning.) -/
+theorem traceOk_of_sized_from (T : List Gen) (B : List Nat) (strict : Bool)
+    (hcons : ∀ κ, ∃ n, wseqs κ (allWrites T) = consec 0 n)
+    (hge : ∀ g ∈ T, ∀ r ∈ g.reads, -1 ≤ r.2.2)
+    (hdep : ∀ pre g post, T = pre ++ g :: post → ∀ r ∈ g.reads, 0 ≤ r.2.2 → r.2.2 ∈ wseqs r.2.1 (allWrites pre))
+    (hsize : ∀ g ∈ T, ∀ r ∈ g.reads, ∃ b, B[r.2.1]? = some b ∧ 0 < b ∧
+      bufSize (minInOf r.1 r.2.1 T) (maxOutOf r.2.1 T) ≤ b)
+    (pre0 rest0 : List Gen) (hT0 : T = pre0 ++ rest0) (hstrict : strict = true → pre0 = []) :
+    traceOk strict (B.map Ring.init) rest0 = true := by
+  suffices H : ∀ rest pre, T = pre0 ++ pre ++ rest →
+      traceOk strict (applyWrites (B.map Ring.init) (allWrites pre)) rest = true by
+    simpa [allWrites, applyWrites] using H rest0 [] (by simpa using hT0)
+  intro rest
+  induction rest with
+  | nil => intro pre _; rfl
+  | cons g gs ih =>
+    intro pre hT
+    simp only [traceOk, Bool.and_eq_true]
+    constructor
+    · simp only [genReadsOk, List.all_eq_true]
+      intro r hr
+      have hgT : g ∈ T := by rw [hT]; simp
+      obtain ⟨b, hb, hbpos, hbs⟩ := hsize g hgT r hr
+      obtain ⟨c, κ, s⟩ := r
+      simp only at hb hbs ⊢
+      obtain ⟨n, hn⟩ := hcons κ
+      rw [hT, allWrites_append, allWrites_append, wseqs_append, wseqs_append] at hn
+      have hmid := consec_middle n _ _ _ hn
+      have hfull := consec_prefix 0 n _ _ hn
+      generalize ha : (wseqs κ (allWrites pre0)).length = a at hmid hfull
+      generalize hk : (wseqs κ (allWrites pre)).length = k at hmid hfull
+      have hring : (applyWrites (B.map Ring.init) (allWrites pre))[κ]? = some ((Ring.init b).writes a k) := by
+        rw [applyWrites_kind, List.getElem?_map, hb, hmid]
+        simp [Ring.writeList_consec]
+      rw [hring]
+      simp only
+      have hs1 := hge g hgT (c, κ, s) hr
+      simp only at hs1
+      rw [List.length_append, ha, hk] at hfull
+      -- everything written before this generation, in the whole trace
+      have hall : wseqs κ (allWrites (pre0 ++ pre)) = consec 0 (a + k) := by
+        rw [allWrites_append, wseqs_append]; exact hfull
+      obtain ⟨P, hP⟩ : ∃ P, P = pre0 ++ pre := ⟨_, rfl⟩
+      have hTP : T = P ++ g :: gs := by rw [hP]; exact hT
+      rw [← hP] at hall
+      have hlive : ((a : Int) + k) ≤ s + b := by
+        rcases Nat.eq_zero_or_pos (a + k) with h0 | hpos
+        · have : (a : Int) + k = 0 := by omega
+          omega
+        · have hlast : (((a + k : Nat) : Int) - 1) ∈ wseqs κ (allWrites P) := by
+            rw [hall]; exact last_mem_consec (a + k) hpos
+          obtain ⟨u, hu, hmem⟩ := mem_wseqs_allWrites κ P _ hlast
+          have hlenT : T.length = P.length + (gs.length + 1) := by rw [hTP]; simp
+          have hTu : T[u]'(by omega) = P[u] := by
+            simp only [hTP]; rw [List.getElem_append_left hu]
+          have hTt : T[P.length]'(by omega) = g := by
+            simp only [hTP]; rw [List.getElem_append_right (Nat.le_refl _)]; simp
+          have hmax : (((a + k : Nat) : Int) - 1) ≤ (maxOutOf κ T)[u]'(by simp [maxOutOf]; omega) := by
+            simp only [maxOutOf, List.getElem_map, hTu]
+            exact le_lmaxD _ _ _ hmem
+          have hmin : (minInOf c κ T)[P.length]'(by simp [minInOf]; omega) ≤ s := by
+            simp only [minInOf, List.getElem_map, hTt]
+            apply lminD_le
+            simp only [rseqs, List.mem_map, List.mem_filter]
+            exact ⟨(c, κ, s), ⟨hr, by simp⟩, rfl⟩
+          have := bufSize_live (minInOf c κ T) (maxOutOf κ T) (by simp [minInOf, maxOutOf]) u P.length P.length
+            hu (Nat.le_refl _) (by simp [minInOf]; omega) s (((a + k : Nat) : Int) - 1) hmin hmax
+          push_cast at this
+          omega
+      by_cases h0 : 0 ≤ s
+      · have hmem := hdep P g gs hTP (c, κ, s) hr h0
+        simp only at hmem
+        rw [hall, mem_consec] at hmem
+        by_cases hsa : (a : Int) ≤ s
+        · exact Ring.read_live b hbpos a k s strict h0 hsa (by push_cast at hmem; omega) (by omega)
+        · -- written before the start: only possible when the execution did not start at the beginning
+          have hne : pre0 ≠ [] := by
+            intro he; subst he
+            simp [allWrites, wseqs] at ha
+            omega
+          have hst : strict = false := by
+            cases strict with
+            | false => rfl
+            | true => exact absurd (hstrict rfl) hne
+          subst hst
+          exact Ring.read_before_start b hbpos a k s (by omega) (by omega)
+      · have hs : s = -1 := by omega
+        subst hs
+        exact Ring.read_default_from b hbpos a k strict (by omega) (by omega)
+    · have := ih (pre ++ [g]) (by rw [hT]; simp)
+      rw [allWrites_append, applyWrites_append] at this
+      simpa [allWrites] using this
+
 /-! ### the hypotheses as a decision procedure -/
 
 def isConsec0 (l : List Int) : Bool := l == consec 0 l.length
@@ -295,12 +412,13 @@ theorem wseqs_nil_of_kinds (T : List Gen) (kinds κ : Nat) (hκ : kinds ≤ κ)
   have := h g hg w hw
   simp; omega
 
-/-- **the decision procedure is sound**: a trace it accepts replays without a bad read -/
-theorem traceOk_of_sizedOk (T : List Gen) (kinds : Nat) (B : List Nat) (h : sizedOk T kinds B = true) :
-    traceOk true (B.map Ring.init) T = true := by
+/-- **the decision procedure is sound**, for an execution that starts at any generation of the accepted trace -/
+theorem traceOk_from_of_sizedOk (T : List Gen) (kinds : Nat) (B : List Nat) (h : sizedOk T kinds B = true)
+    (strict : Bool) (pre0 rest0 : List Gen) (hT0 : T = pre0 ++ rest0) (hstrict : strict = true → pre0 = []) :
+    traceOk strict (B.map Ring.init) rest0 = true := by
   simp only [sizedOk, Bool.and_eq_true] at h
   obtain ⟨⟨⟨⟨hk, hc⟩, hge⟩, hd⟩, hs⟩ := h
-  apply traceOk_of_sized
+  apply traceOk_of_sized_from T B strict _ _ _ _ pre0 rest0 hT0 hstrict
   · intro κ
     rcases Nat.lt_or_ge κ kinds with hlt | hge'
     · simp only [List.all_eq_true, List.mem_range] at hc
@@ -321,6 +439,11 @@ theorem traceOk_of_sizedOk (T : List Gen) (kinds : Nat) (B : List Nat) (h : size
       rw [hb] at this
       simp only [Bool.and_eq_true, decide_eq_true_eq] at this
       exact ⟨b, rfl, this.1, this.2⟩
+
+/-- a trace the decision procedure accepts replays without a bad read -/
+theorem traceOk_of_sizedOk (T : List Gen) (kinds : Nat) (B : List Nat) (h : sizedOk T kinds B = true) :
+    traceOk true (B.map Ring.init) T = true :=
+  traceOk_from_of_sizedOk T kinds B h true [] T rfl (fun _ => rfl)
 
 /-! ### the executable replay of `Schedule.lean` is the trace replay -/
 
@@ -387,6 +510,46 @@ theorem replayOk_of_sizedOk (i : Inst) (sizes : List Nat)
     (h : sizedOk (traceOf i 0) sizes.length sizes = true) : replayOk i sizes 0 = true := by
   rw [replayOk_eq_traceOk i sizes 0 hk]
   exact traceOk_of_sizedOk _ _ _ h
+
+theorem range_filter_ge_suffix (n s : Nat) :
+    ∃ pre, List.range n = pre ++ (List.range n).filter (fun p => decide (p ≥ s)) ∧ (s = 0 → pre = []) := by
+  induction n with
+  | zero => exact ⟨[], by simp, fun _ => rfl⟩
+  | succ n ih =>
+    obtain ⟨pre, hpre, h0⟩ := ih
+    rw [List.range_succ, List.filter_append]
+    by_cases hn : n ≥ s
+    · refine ⟨pre, ?_, h0⟩
+      simp only [List.filter_cons, hn, decide_true, if_true, List.filter_nil]
+      rw [← List.append_assoc, ← hpre]
+    · -- nothing of `range n` passes the filter either
+      have hnone : (List.range n).filter (fun p => decide (p ≥ s)) = [] := by
+        rw [List.filter_eq_nil_iff]
+        intro a ha
+        have := List.mem_range.mp ha
+        simp; omega
+      refine ⟨List.range n ++ [n], ?_, fun hs => by omega⟩
+      simp [hnone, hn]
+
+/-- the trace of an execution that starts at partition `startPart` is a suffix of the trace from partition 0 -/
+theorem traceOf_suffix (i : Inst) (startPart : Nat) :
+    ∃ pre0, traceOf i 0 = pre0 ++ traceOf i startPart ∧ (startPart = 0 → pre0 = []) := by
+  obtain ⟨pre, hpre, h0⟩ := range_filter_ge_suffix i.parts startPart
+  have hall : (List.range i.parts).filter (fun p => decide (p ≥ 0)) = List.range i.parts := by
+    rw [List.filter_eq_self]; intro a _; simp
+  refine ⟨(pre.flatMap fun p => (List.range i.gens).map fun g => (p, g)).map fun pg => genOf (cellsAt i pg.1 pg.2), ?_, ?_⟩
+  · simp only [traceOf, gridFrom, hall]
+    conv => lhs; rw [hpre]
+    simp [List.flatMap_append]
+  · intro hs; rw [h0 hs]; rfl
+
+/-- **C08 end-to-end on an instance, any starting partition.** -/
+theorem replayOk_of_sizedOk_from (i : Inst) (sizes : List Nat) (startPart : Nat)
+    (hk : ∀ c ∈ i.sched, ∀ w ∈ c.wins, w.1 < sizes.length)
+    (h : sizedOk (traceOf i 0) sizes.length sizes = true) : replayOk i sizes startPart = true := by
+  rw [replayOk_eq_traceOk i sizes startPart hk]
+  obtain ⟨pre0, hsplit, h0⟩ := traceOf_suffix i startPart
+  exact traceOk_from_of_sizedOk _ _ _ h _ pre0 _ hsplit (fun hs => h0 (by simpa using hs))
 
 /-- the kinds of all window entries are inside the list of sizes -/
 def kindsOk (i : Inst) (kinds : Nat) : Bool := i.sched.all fun c => c.wins.all fun w => decide (w.1 < kinds)
